@@ -65,6 +65,15 @@ def replay_lbasis(sp):
                 got = float(np.asarray(dphi, dtype=float).reshape(3, -1)[k, 0])
                 a, b = [(1, 2), (2, 0), (0, 1)][k]
                 req = dnum(a, b) - dnum(b, a)
+        elif cl == "history":
+            e1, e2 = make_element(sp["element"]), make_element(sp["element"])
+            q = p + 0.17 * (1 + np.arange(d)) / (1 + d)
+            for m in range(int(e1._bfun_counts().sum())):
+                lbasis_at(e1, p, m)
+            a, b = lbasis_at(e1, q, i), lbasis_at(e2, q, i)
+            got = float(np.asarray(a[0], dtype=float).reshape(-1)[0])
+            req = float(np.asarray(b[0], dtype=float).reshape(-1)[0])
+            got += float(np.abs(np.asarray(a[1], dtype=float) - np.asarray(b[1], dtype=float)).max())
         elif cl == "kron":
             j = sp["j"]
             loc = np.asarray(e.doflocs, dtype=float)[j]
